@@ -2,7 +2,7 @@
    (Model/TagReadAnyB.v pcd_absorb_any) IsoDepInitiator.exchange against ANY responder returns a response or
    raises Type4TagCommandError - never another exception - and stops within the bound of C12's theorem. *)
 From Coq Require Import ZArith List Bool Lia ZifyBool.
-From NV Require Import Base.Result Base.Bytes Model.IsoDep Model.TagReadAnyB Proofs.IsoDep Proofs.IsoDepStream.
+From NV Require Import Base.Result Base.Bytes Model.IsoDep Model.TagAct Model.TagReadAnyB Proofs.IsoDep Proofs.IsoDepStream.
 Import ListNotations.
 Open Scope Z_scope.
 
@@ -96,4 +96,56 @@ Proof.
   rewrite (run_any_fix k cmd H1 H2 fuel _ s 0%nat Hg) in Hh.
   apply (stream_terminates k cmd H1 H2 H3 Hm Hn1 Hn2 pn (fixs s) W fuel Hc); [|exact Hf | exact Hh].
   intro N. pose proof (wild_fix s N). specialize (HW N). lia.
+Qed.
+
+(* ------------------------------------------------------------ with the budget of fixes/c08-19: unconditional *)
+Lemma wild_ans_wildb a : wild_ans a = wildb a.
+Proof. reflexivity. Qed.
+
+Lemma run_script_good k cmd : fix_wtx_try k = true -> fix_wtx_chain k = true -> fix_rack k = true ->
+  0 < miu k -> 0 <= n_nak k -> 0 <= n_ack k ->
+  forall fuel p script w n, goodph p -> okph p -> 0 <= w -> MM k cmd w p <= Z.of_nat fuel ->
+  goodr (fst (fst (run_script_any fuel k cmd p script w n))).
+Proof.
+  intros H1 H2 H3 Hm Hn1 Hn2. induction fuel as [|f IH]; intros p script w n Hg Ho Hw HM.
+  - cbn [run_script_any]. destruct (is_done p) eqn:Hd.
+    + unfold is_done in Hd. unfold goodph in Hg. destruct (ph p); try discriminate. exact Hg.
+    + pose proof (MM_pos k cmd Hn1 Hn2 w p Ho Hd Hw). lia.
+  - cbn [run_script_any]. destruct (is_done p) eqn:Hd.
+    + unfold is_done in Hd. unfold goodph in Hg. destruct (ph p); try discriminate. exact Hg.
+    + set (a := budgeted w (hd_x script)).
+      assert (Hstep : run_script_any (S f) k cmd p script w n =
+                      run_script_any f k cmd (pcd_absorb_any k cmd p a) (tl script) (if wild_ans a then w - 1 else w) (n + 1)).
+      { unfold is_done in Hd. cbn [run_script_any]. destruct (ph p); try discriminate; reflexivity. }
+      change (goodr (fst (fst (run_script_any (S f) k cmd p script w n)))). rewrite Hstep.
+      assert (Hwa : wild_ans a = true -> 0 < w).
+      { unfold a, budgeted. destruct (wild_ans (hd_x script)) eqn:Ew; cbn [andb]; [|intro E; rewrite Ew in E; discriminate].
+        destruct (w <=? 0) eqn:E0; [cbn; discriminate | lia]. }
+      set (w' := if wild_ans a then w - 1 else w).
+      assert (Hw' : 0 <= w' /\ w' <= w) by (unfold w'; destruct (wild_ans a); [specialize (Hwa eq_refl)|]; lia).
+      pose proof (absorb_any_good k cmd H1 H2 p a Hg) as Hg'.
+      rewrite (absorb_any_fix k cmd p a Hg) in *.
+      destruct (absorb_MM k cmd H1 H2 H3 Hm Hn1 Hn2 p (fixa a) w w' Ho Hd) as [Ho' HM']; try lia.
+      { intro Ewf. assert (Ewa : wild_ans a = true).
+        { rewrite wild_ans_wildb. unfold fixa in Ewf. destruct a as [d| | |]; try discriminate.
+          destruct (short_wtx d); [discriminate | exact Ewf]. }
+        unfold w'. rewrite Ewa. lia. }
+      apply IH; auto; lia.
+Qed.
+
+(* IsoDepInitiator.exchange(command) with the repairs 03 and 19 against EVERY script of answers: a response or
+   Type4TagCommandError - it stops, whatever the card does (S(WTX) for ever, chained blocks for ever, R(ACK) for ever ...) *)
+Theorem isodep_script_safe k cmd : fix_wtx_try k = true -> fix_wtx_chain k = true -> fix_rack k = true ->
+  0 < miu k -> 0 <= n_nak k -> 0 <= n_ack k -> 0 < len cmd ->
+  forall pn script, goodr (fst (fst (dep_exchange k cmd pn script))).
+Proof.
+  intros H1 H2 H3 Hm Hn1 Hn2 Hc pn script. unfold dep_exchange.
+  apply (run_script_good k cmd H1 H2 H3 Hm Hn1 Hn2).
+  - unfold pcd_start, goodph. cbn [ph]. replace (miu k =? 0) with false by lia.
+    replace ((len cmd <=? 0) || (miu k <? 0)) with false by lia. exact I.
+  - unfold pcd_start, okph. cbn [ph]. replace (miu k =? 0) with false by lia.
+    replace ((len cmd <=? 0) || (miu k <? 0)) with false by lia. exact I.
+  - unfold W_MAX; lia.
+  - unfold pcd_start, MM, dep_fuel, CC, W_MAX. cbn [ph]. replace (miu k =? 0) with false by lia.
+    replace ((len cmd <=? 0) || (miu k <? 0)) with false by lia. cbn [ph]. nia.
 Qed.
